@@ -369,6 +369,7 @@ RawVerdict(e) ==
   ELSE IF Has(e, "det") /\ ~e.det THEN "reject:nondeterministic"
   ELSE IF Has(e, "seqeq") /\ ~e.seqeq THEN "reject:concurrent-result-differs"
   ELSE IF Has(e, "inmod") /\ e.inmod THEN "reject:input-modified"
+  ELSE IF Has(e, "alias") /\ e.alias THEN "reject:result-aliases-shared-storage"   \* a returned slice, overwritten by the caller, changed a later result
   ELSE IF Has(e, "bok") /\ ~e.bok THEN "reject:behaviour-mismatch"        \* a replayed TLC behaviour: register differs from the expected value
   ELSE IF Has(e, "m") /\ e.m > 5 /\ e.op # "SetMode" THEN "ok"          \* a mode outside the six named ones: totality only
   ELSE CASE e.op = "SetMode" -> "ok"
